@@ -247,7 +247,8 @@ RefSB(sc, h, ev) ==
   IN
   IF ~demanded THEN
      [h |-> [h EXCEPT !.dead = TRUE],
-      v |-> Viol("C02_step_not_demanded_or_out_of_order", <<s, t, D, h.lastd[s]>>)]
+      v |-> Viol("C02_step_not_demanded_or_out_of_order", <<s, t, D, h.lastd[s]>>)
+            \o Cond(h.mal = None \/ h.mal[1] # s, "C13_step_after_malformed_reply", <<s, t, h.mal>>)]
   ELSE
   LET tau == TMin(D)
       cs  == StepCauses(h, s, tau)
@@ -384,6 +385,7 @@ RefEND(sc, h, ev) ==
       \* arithmetic (guardJust) AND -- independently of that arithmetic -- a same-time loop is really in progress
       \* (guardCount): the chain of at least maxloop weak hops that leads to the refused sub-step consists of steps
       \* performed at this integer time, so at least maxloop steps began at it ("sub-steps within one time step")
+      overdue == \E s \in Sids(sc) : h.dem[s] # {} /\ OverLoop(sc, TMin(h.dem[s]))
       guardJust == \E s \in ev.names : h.dem[s] # {} /\ OverLoop(sc, TMin(h.dem[s]))
       guardCount == \E s \in ev.names : h.dem[s] # {} /\ OverLoop(sc, TMin(h.dem[s]))
                                          /\ h.atT[TMin(h.dem[s])[1]] >= sc.maxloop
@@ -402,6 +404,9 @@ RefEND(sc, h, ev) ==
            ELSE IF ev.cat = "cycle" THEN            \* rejected by the cycle check: C06 judges whether rightly so
               Cond(\A s \in Sids(sc) : h.nd[s] = 0, "C06_step_before_rejection", h.nd)
            ELSE Viol("C05_run_failed", <<ev.r, ev.cat>>)
+                \* ... and if a simulator's next step is beyond the loop bound, the run had to end with the loop guard's
+                \* SimulationError naming it - not with some other exception (e.g. one raised while the message is built)
+                \o Cond(~(ev.cat = "other" /\ overdue), "C09_bound_exceeded_but_no_simulation_error_naming_the_simulator", <<ev.r, h.dem>>)
   IN [h |-> h, v |-> v]
 
 \* Debug mode (World(debug=True)): the execution graph that mosaik records.  Its nodes are exactly the steps
